@@ -268,7 +268,6 @@ def cExpr (ce : CE) (cs : CS) (e0 : Expr) : CR :=
         else if f == "array_push" && n == 2 then some .ARR_PUSH
         else if f == "array_set" && n == 3 then some .ARR_SET
         else if f == "array_remove_at" && n == 2 then some .ARR_REMOVE
-        else if f == "array_slice" && n == 3 then some .ARR_SLICE
         else if (f == "str_char_at" || f == "char_at") && n == 2 then some .STR_CHAR_AT
         else none
       match simple with
@@ -285,6 +284,20 @@ def cExpr (ce : CE) (cs : CS) (e0 : Expr) : CR :=
           match cArgs ce cs args with
           | .error e => .error e
           | .ok (cs1, ca) => .ok (cs1, ca ++ minMaxCode (if f == "min" then .LT else .GT))
+        else if f == "array_slice" && n == 3 then
+          -- (array_slice a start length): OP_ARR_SLICE takes start and end, the generator emits start + length
+          match args with
+          | [a, st, ln] =>
+            match cExpr ce cs a with
+            | .error e => .error e
+            | .ok (cs1, ca) =>
+              match cExpr ce cs1 st with
+              | .error e => .error e
+              | .ok (cs2, cst) =>
+                match cExpr ce cs2 ln with
+                | .error e => .error e
+                | .ok (cs3, cln) => .ok (cs3, ca ++ cst ++ [ins .DUP] ++ cln ++ [ins .ADD, ins .ARR_SLICE])
+          | _ => .error (.bad "array_slice arity")
         else if f == "array_pop" && n == 1 then
           match cArgs ce cs args with
           | .error e => .error e
